@@ -13,9 +13,12 @@
    invariants; a stored database LOADS to itself (C05_db_reload), maintenance of the storage keeps it stored and the
    loaded database identical (C05_db_maintenance), and every order-independent read-only query returns the same
    result afterwards (C05_db_queries_after_reopen).
-   STILL NOT A THEOREM (hence the property stays partial): that every MUTATION of DbImpl leaves the database stored
-   (C05_db_operations_preserve_stored_db, spelled out in the L3 section) — i.e. "after any history of queries".  It is
-   checked on every run: the extracted loader on the raw records of real database files against the reopened
+   STILL NOT A THEOREM IN FULL (hence the property stays partial): that every MUTATION of DbImpl leaves the database stored
+   (C05_db_operations_preserve_stored_db, spelled out in the L3 section) — i.e. "after any history of queries".  It IS a
+   theorem for a CORE of mutations (last section: insert_node, insert_edge, reserve_key_value_capacity, insert_key_value and
+   insert_or_replace_key_value on keys without an index, as programs over the storage; every history of them, on the
+   storage model: C05_db_core_operations_preserve_stored_db_partial); aliases, indexes, removals, transactions + undo are
+   missing.  The full statement is checked on every run: the extracted loader on the raw records of real database files against the reopened
    database, and each maintenance operation at random points of generated histories on DbFile, Db and the DbAny kinds
    with the full ORDERED dump plus a fixed battery of searches (result order included) before and after, the history
    continuing on the maintained database side by side with the in-memory one. *)
@@ -438,7 +441,8 @@ Theorem C05_db_eqv_is_observational :
 Proof. intros d d' H. split; [apply sd_eqv_obs_eq|apply sd_eqv_obs_eq_strong]; exact H. Qed.
 Print Assumptions C05_db_eqv_is_observational.
 
-(* THE MISSING LINK (not proved; the reason C05 stays PARTIAL at the level of DbImpl):
+(* THE MISSING LINK (not proved in full — proved for a core of mutations in the LAST SECTION of this file; the reason C05
+   stays PARTIAL at the level of DbImpl):
 
      C05_db_operations_preserve_stored_db :
        forall every DbImpl operation op (insert_node, insert_edge, insert_alias, insert_key_value, insert_index,
@@ -543,3 +547,312 @@ Proof.
   cbn [gops_ok gop_ok]. unfold ga_fits, i64_range. repeat split; try lia; intros f; destruct f; vm_compute; reflexivity.
 Qed.
 Print Assumptions C05_db_sample_graph_history.
+
+(* ======================= the database level (L3): the CORE MUTATIONS keep the database stored =======================
+   theories/StoredDbOps.v (executable, extracted: the programs), StoredDbOpsGraph/Graph2/Kv/Kv2/Kv3/Db/Db2/Db3.v (proofs).
+
+   The missing link above, CLOSED FOR A CORE of DbImpl's mutations.  Each is modelled as a PROGRAM over the storage that
+   issues the Storage<D> calls the code issues through the storage-backed collections, branching on what the storage
+   answers (nothing read from the abstract state):
+     so_insert_node                   DbImpl::insert_node = GraphImpl::insert_node over GraphDataStorage: one storage
+                                      transaction around get_free_index (free_index() == i64::MIN: capacity as i64 + grow
+                                      (four pushes), else pop the free list: from_meta(-index), set_from_meta(0, next),
+                                      set_from_meta(-index, 0)), node_count, set_node_count(count + 1)
+     so_insert_edge                   DbImpl::insert_edge = GraphImpl::insert_edge: validate_node twice (is_valid_index,
+                                      is_valid_node, short-circuit), transaction, get_free_index, set_edge (set_from, set_to,
+                                      update_from_edge, update_to_edge), commit; an invalid endpoint: Err, nothing written
+     so_reserve_key_value_capacity    DbKeyValues::reserve_capacity: resize of the slot vector up to the index (new slots 0),
+                                      value(index), DbVec::<DbKeyValue>::new + replace of the slot when it is 0 — the
+                                      allocation of a property vector for an element without properties — else from_storage;
+                                      reserve
+     so_insert_key_value              DbImpl::insert_key_value for a key that is NOT indexed = DbKeyValues::insert_value:
+                                      the same beginning, then reserve(len + 1), push (the pair's two value indexes of C12,
+                                      out-of-line values in records owned by the slot)
+     so_insert_or_replace_key_value   DbImpl::insert_or_replace_key_value, neither key indexed = DbKeyValues::
+                                      insert_or_replace: valid_index, kvs (the slot again, from_storage), the lazy search for
+                                      the first pair with an equal key (iter().enumerate().find), replace in place (the old
+                                      pair's out-of-line records freed) or reserve + push; invalid index: insert_value
+   The undo stack and `self.indexes.index_mut(&key)` are in memory (no storage call).  THEOREM SHAPE: in every state of the
+   abstract record map holding d (stored_db_w with its witness w: handles and slot bytes) with the handles of DbImpl being
+   those of the witness (so_handles; so_open builds them as try_new_with_storage does: C05_db_open_handles), under the
+   explicit side conditions, for EVERY answer sequence the record map allows the program does not die, returns what
+   DbModel's function returns, and ends in a state holding DbModel's result; the witness changes in the component
+   operated on only (sd_with_graph / sd_with_values: all other handles, slot bytes, tables the SAME), and `frame` confines
+   the change to the database's footprint (records outside untouched, records entering it were free, none leaked); the
+   transaction depth is the one before (usable inside transaction_mut's storage transaction).
+   SIDE CONDITIONS (explicit, nothing else assumed — stored_db demands no invariant of d):
+     so_graph_ok G      four arrays of one length n, 1 <= n < 2^60; free-list head from_meta[0] = i64::MIN or of magnitude
+                        < n; node count to_meta[0] in [0, 2^63 - 1)          (consequences of C08's wf + capacity bound)
+     so_edge_ok G f t   the two degree counters insert_edge increments stay i64 values (under wf: <= number of edges)
+     so_index_ok i      |id| < 2^60;   so_kv_fits: 8 + 32 * (len + 1) < 2^64 (u64 sizes);   el_valid law_dbkv x: both values
+                        wf_value (i64 range, valid UTF-8, lengths < 2^60 — what a Rust program can hold)
+     key not indexed    idx_find (indexes d) key = None (for insert_or_replace also the replaced pair's key) *)
+From Agdb Require Import StoredDbOps StoredDbOpsGraph StoredDbOpsGraph2 StoredDbOpsKv StoredDbOpsKv2 StoredDbOpsKv3
+  StoredDbOpsDb StoredDbOpsDb2 StoredDbOpsDb3 StoredDbOpsExample.
+
+(* the handles of an existing file: root record, DbGraph::from_storage, DbKeyValues::from_storage; nothing is written *)
+Theorem C05_db_open_handles :
+  forall (fl : bool) root d w sp (Q : cres so_db -> spec -> Prop),
+    stored_db_w (hp sp) root d w ->
+    (forall h w', stored_db_w (hp sp) root d w' -> so_handles h w' -> sd_foot root w' = sd_foot root w -> Q (CrOk h) sp) ->
+    cwp fl (so_open root) sp Q.
+Proof. exact so_open_spec. Qed.
+Print Assumptions C05_db_open_handles.
+
+Theorem C05_db_insert_node_preserves_stored_db :
+  forall (fl : bool) root d w h sp (Q : cres (so_db * Z) -> spec -> Prop),
+    stored_db_w (hp sp) root d w -> so_handles h w -> so_graph_ok (gr d) ->
+    (forall h' dg' s' sp',
+        stored_db_w (hp sp') root (snd (insert_node_db d)) (sd_with_graph w dg' s') -> so_handles h' (sd_with_graph w dg' s') ->
+        sdepth sp' = sdepth sp ->
+        frame (hp sp) (hp sp') (sd_foot root w) (sd_foot root (sd_with_graph w dg' s')) ->
+        Q (CrOk (h', fst (insert_node_db d))) sp') ->
+    cwp fl (so_insert_node h) sp Q.
+Proof. exact so_insert_node_stored. Qed.
+Print Assumptions C05_db_insert_node_preserves_stored_db.
+
+Theorem C05_db_insert_edge_preserves_stored_db :
+  forall (fl : bool) root d w h f t sp (Q : cres (so_db * option Z) -> spec -> Prop),
+    stored_db_w (hp sp) root d w -> so_handles h w -> so_graph_ok (gr d) ->
+    (insert_edge (gr d) f t <> None -> so_edge_ok (gr d) f t) ->
+    match insert_edge_db d f t with
+    | DbModel.ROk (e, d') =>
+      forall h' dg' s' sp',
+        stored_db_w (hp sp') root d' (sd_with_graph w dg' s') -> so_handles h' (sd_with_graph w dg' s') ->
+        sdepth sp' = sdepth sp ->
+        frame (hp sp) (hp sp') (sd_foot root w) (sd_foot root (sd_with_graph w dg' s')) ->
+        Q (CrOk (h', Some e)) sp'
+    | DbModel.RErr _ => Q (CrOk (h, None)) sp
+    end ->
+    cwp fl (so_insert_edge h f t) sp Q.
+Proof. exact so_insert_edge_stored. Qed.
+Print Assumptions C05_db_insert_edge_preserves_stored_db.
+
+Theorem C05_db_reserve_key_value_capacity_preserves_stored_db :
+  forall (fl : bool) root d w h id len sp (Q : cres so_db -> spec -> Prop),
+    stored_db_w (hp sp) root d w -> so_handles h w -> so_index_ok (cg_as_u64 id) ->
+    (forall h' vh' vs' vi' vw' sp',
+        stored_db_w (hp sp') root (reserve_kv d id) (sd_with_values w vh' vs' vi' vw') ->
+        so_handles h' (sd_with_values w vh' vs' vi' vw') -> sdepth sp' = sdepth sp ->
+        frame (hp sp) (hp sp') (sd_foot root w) (sd_foot root (sd_with_values w vh' vs' vi' vw')) ->
+        Q (CrOk h') sp') ->
+    cwp fl (so_reserve_key_value_capacity h id len) sp Q.
+Proof. exact so_reserve_key_value_capacity_stored. Qed.
+Print Assumptions C05_db_reserve_key_value_capacity_preserves_stored_db.
+
+Theorem C05_db_insert_key_value_preserves_stored_db :
+  forall (fl : bool) root d w h id x sp (Q : cres so_db -> spec -> Prop),
+    stored_db_w (hp sp) root d w -> so_handles h w ->
+    idx_find (indexes d) (fst x) = None ->
+    so_index_ok (cg_as_u64 id) -> el_valid law_dbkv x ->
+    8 + ce_size ce_dbkv * (lenN (kvs_get (vals d) id) + 1) < two64 ->
+    (forall h' vh' vs' vi' vw' sp',
+        stored_db_w (hp sp') root (insert_key_value d id x) (sd_with_values w vh' vs' vi' vw') ->
+        so_handles h' (sd_with_values w vh' vs' vi' vw') -> sdepth sp' = sdepth sp ->
+        frame (hp sp) (hp sp') (sd_foot root w) (sd_foot root (sd_with_values w vh' vs' vi' vw')) ->
+        Q (CrOk h') sp') ->
+    cwp fl (so_insert_key_value h id x) sp Q.
+Proof. exact so_insert_key_value_stored. Qed.
+Print Assumptions C05_db_insert_key_value_preserves_stored_db.
+
+Theorem C05_db_insert_or_replace_key_value_preserves_stored_db :
+  forall (fl : bool) root d w h id x sp (Q : cres (so_db * option kv) -> spec -> Prop),
+    stored_db_w (hp sp) root d w -> so_handles h w ->
+    so_not_indexed d id x -> so_index_ok (cg_as_u64 id) -> el_valid law_dbkv x -> so_kv_fits d id ->
+    (forall h' vh' vs' vi' vw' sp',
+        stored_db_w (hp sp') root (insert_or_replace_key_value d id x) (sd_with_values w vh' vs' vi' vw') ->
+        so_handles h' (sd_with_values w vh' vs' vi' vw') -> sdepth sp' = sdepth sp ->
+        frame (hp sp) (hp sp') (sd_foot root w) (sd_foot root (sd_with_values w vh' vs' vi' vw')) ->
+        Q (CrOk (h', fst (kvs_insert_or_replace (vals d) id x))) sp') ->
+    cwp fl (so_insert_or_replace_key_value h id x) sp Q.
+Proof. exact so_insert_or_replace_key_value_stored. Qed.
+Print Assumptions C05_db_insert_or_replace_key_value_preserves_stored_db.
+
+(* COMBINED, for EVERY HISTORY (no bound) of the five core operations (so_op: SoInsertNode, SoInsertEdge f t, SoReserve id len,
+   SoInsertKeyValue id x, SoInsertOrReplace id x), transferred to the MODEL OF storage.rs (C04; file-like and memory-like):
+   from any storage state refining a record map that holds d, opening the handles (so_open) and running the history
+   (so_ops_run) either dies by a panic of the storage (a request beyond 2^64 bytes) or returns the outputs DbModel returns
+   (ids, replaced pairs: so_ops_model) in a storage state refining a record map that HOLDS DbModel's final database, at
+   the same transaction depth, the change confined to the database's footprint.  so_ops_ok = the side conditions above
+   at every intermediate model state.  With C05_db_reload / C05_db_maintenance / C05_db_queries_after_reopen this gives, for
+   these histories, "after any history ... reopening / optimizing / backing up yields a database on which the queries
+   return the same".
+   _partial — STILL MISSING for C05_db_operations_preserve_stored_db: insert_alias / insert_new_alias / remove_alias (the
+   multi_map.rs algorithm over the two alias tables: needs C19's PInv as part of the relation), insert_index / remove_index
+   and the index updates of insert_key_value / insert_or_replace_key_value / remove_* for an INDEXED key (DbIndexes: a vector
+   of (value index, multi-map)), DbImpl's remove_edge / remove_node (their GRAPH part is proved below: GraphImpl::remove_edge in
+   full, GraphImpl::remove_node for a node without edges; the cascade over a node's edges and the removal of the element's
+   properties and alias are not), remove_keys / remove_all_values,
+   transactions + undo (rollback replays the inverse commands: the same operations), shrink_to_fit; and that the side
+   conditions hold of every reachable database (C08's wf implies so_graph_ok / so_edge_ok up to the capacity bound). *)
+Theorem C05_db_core_operations_preserve_stored_db_partial :
+  forall (ops : store_ops cdata) (fl : bool), StorageProofs.kind ops fl ->
+  forall s sp root d l, Rel s sp -> stored_db (hp sp) root d -> so_ops_ok d l ->
+    let r := cp_run (st_step cdata ops) (h <~ so_open root ;; so_ops_run h l) s in
+    snd r = CrDead \/
+    exists sp' h' w w', Rel (fst r) sp' /\ snd r = CrOk (h', snd (so_ops_model d l)) /\
+                        stored_db_w (hp sp) root d w /\ stored_db_w (hp sp') root (fst (so_ops_model d l)) w' /\
+                        so_handles h' w' /\ sdepth sp' = sdepth sp /\
+                        frame (hp sp) (hp sp') (sd_foot root w) (sd_foot root w').
+Proof. exact so_core_on_storage. Qed.
+Print Assumptions C05_db_core_operations_preserve_stored_db_partial.
+
+(* the same on the abstract record map, for every answer sequence it allows *)
+Theorem C05_db_core_histories_preserve_stored_db :
+  forall (fl : bool) root l d w h sp,
+    stored_db_w (hp sp) root d w -> so_handles h w -> so_ops_ok d l ->
+    cwp fl (so_ops_run h l) sp
+        (fun r sp' => exists h' w', r = CrOk (h', snd (so_ops_model d l)) /\
+                                    stored_db_w (hp sp') root (fst (so_ops_model d l)) w' /\ so_handles h' w' /\
+                                    sdepth sp' = sdepth sp /\ frame (hp sp) (hp sp') (sd_foot root w) (sd_foot root w')).
+Proof. exact so_ops_stored. Qed.
+Print Assumptions C05_db_core_histories_preserve_stored_db.
+
+(* non-vacuity, by evaluation ON THE STORAGE MODEL: from the example database of C05_db_sample (the storage state its
+   creation ended in) the programs so_open; insert_node; reserve_key_value_capacity(id, 1); insert_key_value(id, ("q", a
+   17-byte string: out of line)) are run by cp_run on the model of storage.rs; every answer of the storage model is
+   replayed on the abstract record map (so_replay: each accepted by spec_step), so the theorems above apply to THIS run:
+   the returned id is 4 = DbModel's, the record store the storage model ends with (sy_store = its live records) satisfies
+   stored_db for DbModel's result sy_db = insert_key_value (reserve_kv (insert_node_db sx_db) 4) 4 ("q", ..), and load_db
+   returns exactly it (with the empty undo stack). *)
+Example C05_db_sample_core_operations :
+  sy_id = 4%Z /\
+  (exists h, snd sy_run = CrOk (h, 4%Z)) /\
+  live_values cdata ops_file (fst sy_run) = sy_store /\
+  stored_db (m_get sy_store) 1 sy_db /\
+  load_db sy_store 1 = Some (clear_undo sy_db).
+Proof. exact sy_sample. Qed.
+Print Assumptions C05_db_sample_core_operations.
+
+(* ---- graph.rs REMOVALS, graph component only (theories/StoredDbOpsGraph3/4.v) ----
+   GraphImpl::remove_edge and GraphImpl::remove_node as programs over the storage (so_graph_remove_edge,
+   so_graph_remove_node: validate_edge / validate_node — an invalid index is a no-op —, one storage transaction,
+   remove_from_edge / remove_to_edge = three reads, the head case or the `while` walk to the predecessor (two reads per
+   round, as the code), the degree counter; free_index = one read, five writes; node count - 1).  The `while` loops run on
+   fuel = capacity, as in Graph.v (running out = CErr, standing for non-termination).  "Graph only": the properties and
+   the alias of the removed element are removed by DbImpl (remove_all_values, aliases) — not covered; the statement is about
+   with_gr d G' for G' = Graph.remove_edge / Graph.remove_node of gr d.
+   remove_edge: FULL algorithm, every edge position in both lists.  Side condition so_remove_edge_ok (explicit; each part
+   a consequence of C08's wf): the slots visited are inside the arrays (the edge, its source / target, every slot of the
+   walk: prev_ok), the walks end within `capacity` rounds, the decremented counters stay i64 values.
+   remove_node: for a node WITHOUT edges (from = to = 0: both unlink loops run zero times) and node count >= 1; the
+   cascade over the node's edges (remove_from_edges / remove_to_edges are modelled in StoredDbOps.v) is NOT proved. *)
+From Agdb Require Import StoredDbOpsGraph3 StoredDbOpsGraph4.
+
+Theorem C05_db_remove_edge_graph_preserves_stored_db :
+  forall (fl : bool) root d w h e sp (Q : cres unit -> spec -> Prop),
+    stored_db_w (hp sp) root d w -> so_handles h w -> so_graph_ok (gr d) -> so_remove_edge_ok (gr d) e ->
+    (forall G', Graph.remove_edge (gr d) e = Some G' ->
+       forall s' sp', stored_db_w (hp sp') root (with_gr d G') (sd_with_graph w (sw_g w) s') -> sdepth sp' = sdepth sp ->
+         frame (hp sp) (hp sp') (sd_foot root w) (sd_foot root (sd_with_graph w (sw_g w) s')) -> Q (CrOk tt) sp') ->
+    cwp fl (so_graph_remove_edge (so_graph h) e) sp Q.
+Proof. exact so_remove_edge_stored. Qed.
+Print Assumptions C05_db_remove_edge_graph_preserves_stored_db.
+
+Theorem C05_db_remove_isolated_node_graph_preserves_stored_db :
+  forall (fl : bool) root d w h index sp (Q : cres unit -> spec -> Prop),
+    stored_db_w (hp sp) root d w -> so_handles h w -> so_graph_ok (gr d) ->
+    (is_node (gr d) index = true -> from (gr d) index = 0%Z /\ to (gr d) index = 0%Z /\ (1 <= tmeta (gr d) 0)%Z) ->
+    (forall G', remove_node (gr d) index = Some G' ->
+       forall s' sp', stored_db_w (hp sp') root (with_gr d G') (sd_with_graph w (sw_g w) s') -> sdepth sp' = sdepth sp ->
+         frame (hp sp) (hp sp') (sd_foot root w) (sd_foot root (sd_with_graph w (sw_g w) s')) -> Q (CrOk tt) sp') ->
+    cwp fl (so_graph_remove_node (so_graph h) index) sp Q.
+Proof. exact so_remove_isolated_node_stored. Qed.
+Print Assumptions C05_db_remove_isolated_node_graph_preserves_stored_db.
+
+(* non-vacuity: the hypotheses hold of the example database for its edge -3 (1 -> 2, the head of both lists) and
+   Graph.remove_edge computes a result *)
+Example C05_db_sample_remove_edge :
+  so_graph_ok (gr sx_db) /\ so_remove_edge_ok (gr sx_db) (-3)%Z /\ is_edge (gr sx_db) (-3)%Z = true /\
+  exists G', Graph.remove_edge (gr sx_db) (-3)%Z = Some G' /\ g_from G' = [0; 0; 0; 0]%Z /\ g_fmeta G' = [-3; 0; 0; -9223372036854775808]%Z.
+Proof. exact sy_remove_edge_sample. Qed.
+Print Assumptions C05_db_sample_remove_edge.
+
+(* the side condition so_graph_ok is a consequence of C08's well-formedness (what every history of graph.rs operations from
+   graph_new satisfies: C08_history_refines) and the capacity bound; so_edge_ok / so_remove_edge_ok (degree counters within
+   i64, visited slots inside the arrays, walks that end) are NOT linked to wf here *)
+From Agdb Require GraphSim StoredDbOpsWf.
+Theorem C05_db_graph_side_condition_from_wf :
+  forall g, GraphSim.wf g -> (Graph.capacity g < 1152921504606846976)%Z -> so_graph_ok g.
+Proof. exact StoredDbOpsWf.wf_so_graph_ok. Qed.
+Print Assumptions C05_db_graph_side_condition_from_wf.
+
+(* ---- the programs of the correspondence run (theories/StoredDbOpsQuery.v) ----
+   so_q_insert_node h l / so_q_insert_values h id l are the core operations as the PUBLIC QUERIES issue them inside
+   transaction_mut's storage transaction (insert nodes values [l]: insert_node, reserve_key_value_capacity(id, |l|),
+   insert_key_value for each pair; insert values [l] ids id: reserve_key_value_capacity, insert_or_replace_key_value for each
+   pair) — the programs `hx_core ops` compares byte for byte with the real database.  They keep the database stored and
+   compute the composition of DbModel's functions (mq_*: fold_left of insert_key_value / insert_or_replace_key_value);
+   so_kvs_ok / so_iors_ok: the side conditions at every intermediate database. *)
+From Agdb Require Import StoredDbOpsQuery.
+
+Theorem C05_db_query_insert_node_preserves_stored_db :
+  forall (fl : bool) root d w h l sp,
+    stored_db_w (hp sp) root d w -> so_handles h w -> so_graph_ok (gr d) ->
+    let id := fst (insert_node_db d) in
+    let d2 := reserve_kv (snd (insert_node_db d)) id in
+    so_index_ok (cg_as_u64 id) -> so_kvs_ok d2 id l ->
+    cwp fl (so_q_insert_node h l) sp
+        (fun r sp' => exists h' w', r = CrOk (h', id) /\ stored_db_w (hp sp') root (mq_insert_key_values d2 id l) w' /\
+                                    so_handles h' w' /\ sdepth sp' = sdepth sp /\
+                                    frame (hp sp) (hp sp') (sd_foot root w) (sd_foot root w')).
+Proof. exact so_q_insert_node_stored. Qed.
+Print Assumptions C05_db_query_insert_node_preserves_stored_db.
+
+Theorem C05_db_query_insert_values_preserves_stored_db :
+  forall (fl : bool) root d w h id l sp,
+    stored_db_w (hp sp) root d w -> so_handles h w -> so_index_ok (cg_as_u64 id) ->
+    so_iors_ok (reserve_kv d id) id l ->
+    cwp fl (so_q_insert_values h id l) sp
+        (fun r sp' => exists h' w', r = CrOk h' /\
+                                    stored_db_w (hp sp') root (mq_insert_or_replace_key_values (reserve_kv d id) id l) w' /\
+                                    so_handles h' w' /\ sdepth sp' = sdepth sp /\
+                                    frame (hp sp) (hp sp') (sd_foot root w) (sd_foot root w')).
+Proof. exact so_q_insert_values_stored. Qed.
+Print Assumptions C05_db_query_insert_values_preserves_stored_db.
+
+(* ---- DbKeyValues::remove and the PUBLIC REMOVAL OF AN EDGE (theories/StoredDbOpsKv4.v, StoredDbOpsRemove.v) ----
+   so_kv_remove = DbKeyValues::remove: valid_index, kvs, remove_from_storage of the element's vector (the out-of-line
+   records of every pair and the vector record are freed: the footprint shrinks, `frame ... []`), then the slot vector is
+   popped (VecImpl::remove) when it was the last slot, else the slot is set to 0.  so_q_remove h e for an edge id e =
+   what QueryBuilder::remove().ids(e) issues inside transaction_mut's storage transaction: DbImpl::remove_id =
+   graph.remove_edge + remove_all_values (none of the edge's keys indexed).  It keeps the database stored and computes
+   DbModel's remove_all_values (remove_edge_db d e).
+   so_slot_valid (a condition on the WITNESS, i.e. on the file): the element has a property vector (slot <> 0 — every element
+   inserted through the public API, which always reserves capacity) or lies beyond the slot vector.  It is needed: for a
+   LAST slot holding 0 the code returns at valid_index and keeps the slot, while DbModel's kvs_remove pops the entry — a
+   discrepancy between DbModel's `vals` length and the file that no query observes and no API history reaches. *)
+From Agdb Require Import StoredDbOpsKv4 StoredDbOpsRemove.
+
+Theorem C05_db_query_remove_edge_preserves_stored_db :
+  forall (fl : bool) root d w h e sp,
+    stored_db_w (hp sp) root d w -> so_handles h w -> (e < 0)%Z ->
+    so_graph_ok (gr d) -> so_remove_edge_ok (gr d) e ->
+    so_slot_valid (sw_vi w) (zabs_nat e) ->
+    (forall x, In x (kvs_get (vals d) e) -> idx_find (indexes d) (fst x) = None) ->
+    cwp fl (so_q_remove h e) sp
+        (fun r sp' => exists G' h' w', Graph.remove_edge (gr d) e = Some G' /\ r = CrOk h' /\
+                        stored_db_w (hp sp') root (remove_all_values (fst (remove_edge_db d e)) e) w' /\
+                        so_handles h' w' /\ sdepth sp' = sdepth sp /\
+                        frame (hp sp) (hp sp') (sd_foot root w) (sd_foot root w')).
+Proof. exact so_q_remove_edge_stored. Qed.
+Print Assumptions C05_db_query_remove_edge_preserves_stored_db.
+
+(* the public removal of a NODE that has no edges and no alias (so_q_remove h n, n > 0: DbImpl::remove_id = remove_node with an
+   empty node_edges list — no cascade —, graph.remove_node, remove_all_values): DbModel's remove_node_db d n None succeeds
+   (no error) and the final store holds remove_all_values of its result *)
+Theorem C05_db_query_remove_isolated_node_preserves_stored_db :
+  forall (fl : bool) root d w h n sp,
+    stored_db_w (hp sp) root d w -> so_handles h w -> (0 < n)%Z ->
+    so_graph_ok (gr d) -> is_node (gr d) n = true ->
+    from (gr d) n = 0%Z -> to (gr d) n = 0%Z -> (1 <= tmeta (gr d) 0)%Z ->
+    so_slot_valid (sw_vi w) (zabs_nat n) ->
+    (forall x, In x (kvs_get (vals d) n) -> idx_find (indexes d) (fst x) = None) ->
+    cwp fl (so_q_remove h n) sp
+        (fun r sp' => exists h' w', r = CrOk h' /\
+                        stored_db_w (hp sp') root (remove_all_values (fst (remove_node_db d n None)) n) w' /\
+                        snd (remove_node_db d n None) = None /\
+                        so_handles h' w' /\ sdepth sp' = sdepth sp /\
+                        frame (hp sp) (hp sp') (sd_foot root w) (sd_foot root w')).
+Proof. exact so_q_remove_isolated_node_stored. Qed.
+Print Assumptions C05_db_query_remove_isolated_node_preserves_stored_db.
